@@ -35,4 +35,4 @@ def run(ctx):
                         "SkipListWithCmp is driven under permutations of the key order (one per path)"]
 
 def replay(ctx, rp):
-    return vlib.generic_replay(ctx, rp)
+    return vlib.replay_any(ctx, rp)
